@@ -73,8 +73,30 @@ KnownId(prop, e, N, cons, detail) ==
                  /\ \A x \in lost : \E r \in removed :
                         /\ N[r].u = N[x].ns
                         /\ N[r].p \in AncOrSelf(N, x)
-                        /\ N[N[r].p].p # 0 /\ \E b \in InScope(N, N[N[r].p].p) : b[2] = N[r].u
+                        /\ N[N[r].p].p # 0
+                        \* an outer binding of the namespace that this kind of name could use exists, and every such
+                        \* binding is shadowed (rebound or undeclared) where the name stands
+                        /\ LET outer == {b \in InScope(N, N[N[r].p].p) : b[2] = N[r].u /\ (N[x].k = "attr" => b[1] # "")}
+                               here == ScopeB(N, ScopeElem(N, x), Len(N))
+                           IN outer # {} /\ \A b \in outer : \E c \in here : c[1] = b[1] /\ c[2] # b[2]
     THEN "K-C15-dedup-under-shadowed-prefix"
+    \* K-C15b: an element declares a namespace both as default and under a prefix, an ancestor already declares it as
+    \* default, and an attribute below uses the prefix: both declarations are removed (the tracker's "in use by an attribute"
+    \* mark sits on the element's own entry, which is popped before the decision), the attribute loses its only prefix.
+    ELSE IF prop = "C15" /\ e.op \in {"dedup", "dedup2"}
+          /\ detail[1] \in {"relation", "a tree that serialised before deduplicate_namespaces does not any more / reparses differently"}
+          /\ LET P == IF e.op = "dedup2" /\ e.res = "ok" THEN e.mid.n ELSE e.post.n
+                  x0 == e.a[1]
+                  lost == {x \in Named(N, x0) : NameUsable(N, x) /\ ~NameUsable(P, x)}
+                  removed == {r \in 1..Len(N) : N[r].k = "nsn" /\ P[r].k = "rm"}
+              IN /\ Len(P) = Len(N) /\ P = FreeSet(N, removed)
+                 /\ lost # {}
+                 /\ \A x \in lost : N[x].k = "attr" /\ \E r \in removed :
+                        /\ N[r].u = N[x].ns /\ N[r].ln # ""
+                        /\ N[r].p \in AncOrSelf(N, x)
+                        /\ <<"", N[r].u>> \in DeclsAtK(N, N[r].p)                  \* the element also declares it as default
+                        /\ N[N[r].p].p # 0 /\ <<"", N[r].u>> \in InScope(N, N[N[r].p].p)   \* and so does the enclosing scope
+    THEN "K-C15-attribute-prefix-removed-under-default"
     ELSE ""
 
 =============================================================================
